@@ -47,8 +47,10 @@ Fixpoint foldM {A S} (f : S -> A -> res S) (l : list A) (s : S) : res S :=
 
 (** * Machine integers. Values are mathematical integers; every Rust operator is a named
       function with Rust's semantics in a build with overflow checks ("dev" profile). *)
-Definition wrap (n : Z) (x : Z) : Z := (x + 2 ^ (n - 1)) mod 2 ^ n - 2 ^ (n - 1).
-Definition uwrap (n : Z) (x : Z) : Z := x mod 2 ^ n.
+(** two's-complement truncation to n bits (signed) / n bits (unsigned); written with masks so that it runs fast *)
+Definition wrap (n : Z) (x : Z) : Z :=
+  let m := Z.land x (Z.ones n) in if m <? 2 ^ (n - 1) then m else m - 2 ^ n.
+Definition uwrap (n : Z) (x : Z) : Z := Z.land x (Z.ones n).
 
 Definition in_signed (n : Z) (x : Z) : bool := (- 2 ^ (n - 1) <=? x) && (x <? 2 ^ (n - 1)).
 Definition in_unsigned (n : Z) (x : Z) : bool := (0 <=? x) && (x <? 2 ^ n).
@@ -82,7 +84,7 @@ Definition shl_u (n : Z) (a k : Z) : res Z :=
   if (0 <=? k) && (k <? n) then Ok (uwrap n (a * 2 ^ k)) else Panic.
 (** [>>]: arithmetic on signed, logical on unsigned (both floor division on the value) *)
 Definition shr (n : Z) (a k : Z) : res Z :=
-  if (0 <=? k) && (k <? n) then Ok (a / 2 ^ k) else Panic.
+  if (0 <=? k) && (k <? n) then Ok (Z.shiftr a k) else Panic.
 
 (** * Arrays are lists; every access is bounds-checked. *)
 Definition get {A} (l : list A) (i : Z) : res A :=
@@ -134,10 +136,25 @@ Proof. destruct m; simpl; intros H; try discriminate. eauto. Qed.
 Lemma pow2_pos n : 0 <= n -> 0 < 2 ^ n.
 Proof. intros; apply Z.pow_pos_nonneg; lia. Qed.
 
+Lemma wrap_mod n x : 0 < n -> wrap n x = (x + 2 ^ (n - 1)) mod 2 ^ n - 2 ^ (n - 1).
+Proof.
+  intros Hn. unfold wrap. rewrite Z.land_ones by lia.
+  assert (H2 : 2 ^ n = 2 * 2 ^ (n - 1)).
+  { replace n with (Z.succ (n - 1)) at 1 by lia. rewrite Z.pow_succ_r by lia. reflexivity. }
+  assert (Hp : 0 < 2 ^ (n - 1)) by (apply pow2_pos; lia).
+  pose proof (Z.mod_pos_bound x (2 ^ n) ltac:(lia)) as Hb.
+  pose proof (Z.div_mod x (2 ^ n) ltac:(lia)) as Hd.
+  destruct (Z.ltb_spec (x mod 2 ^ n) (2 ^ (n - 1))) as [Hlt|Hge].
+  - symmetry. replace (x + 2 ^ (n - 1)) with ((x mod 2 ^ n + 2 ^ (n - 1)) + (x / 2 ^ n) * 2 ^ n) by lia.
+    rewrite Z.mod_add by lia. rewrite Z.mod_small by lia. lia.
+  - symmetry. replace (x + 2 ^ (n - 1)) with ((x mod 2 ^ n - 2 ^ (n - 1)) + (x / 2 ^ n + 1) * 2 ^ n) by lia.
+    rewrite Z.mod_add by lia. rewrite Z.mod_small by lia. lia.
+Qed.
+
 Lemma wrap_spec n x : 0 < n ->
   exists k, wrap n x = x + k * 2 ^ n /\ - 2 ^ (n - 1) <= wrap n x < 2 ^ (n - 1).
 Proof.
-  intros Hn. unfold wrap.
+  intros Hn. rewrite wrap_mod by exact Hn.
   assert (H2 : 2 ^ n = 2 * 2 ^ (n - 1)).
   { replace n with (Z.succ (n - 1)) at 1 by lia. rewrite Z.pow_succ_r by lia. reflexivity. }
   assert (Hp : 0 < 2 ^ (n - 1)) by (apply pow2_pos; lia).
@@ -152,11 +169,14 @@ Qed.
 
 Lemma wrap_id n x : 0 < n -> - 2 ^ (n - 1) <= x < 2 ^ (n - 1) -> wrap n x = x.
 Proof.
-  intros Hn Hx. unfold wrap.
+  intros Hn Hx. rewrite wrap_mod by exact Hn.
   assert (H2 : 2 ^ n = 2 * 2 ^ (n - 1)).
   { replace n with (Z.succ (n - 1)) at 1 by lia. rewrite Z.pow_succ_r by lia. reflexivity. }
   rewrite Z.mod_small; lia.
 Qed.
+
+Lemma uwrap_mod n x : 0 <= n -> uwrap n x = x mod 2 ^ n.
+Proof. intros. unfold uwrap. apply Z.land_ones. lia. Qed.
 
 Lemma chk_s_ok n x : - 2 ^ (n - 1) <= x < 2 ^ (n - 1) -> chk_s n x = Ok x.
 Proof.
@@ -209,7 +229,7 @@ Qed.
 
 Lemma shr_ok n a k : 0 <= k < n -> shr n a k = Ok (a / 2 ^ k).
 Proof.
-  intros H. unfold shr.
+  intros H. unfold shr. rewrite Z.shiftr_div_pow2 by lia.
   destruct (Z.leb_spec 0 k); destruct (Z.ltb_spec k n); simpl; auto; lia.
 Qed.
 Lemma shl_s_ok n a k : 0 <= k < n -> shl_s n a k = Ok (wrap n (a * 2 ^ k)).
